@@ -119,7 +119,7 @@ def verify_path_task(task: Tuple[str, List[int]]) -> Dict[str, Any]:
     try:
         from .replay import replay
         ct = cts[q]
-        fi = ix.find(q)
+        fi = ix.find(q.split('@')[0])
         if fi is None:
             out['unsupported'].append(f'contract target {q} not found in the repository (renamed / removed?)')
             return out
